@@ -19,7 +19,7 @@ from ..harness import Violation
 LEVEL = "exploration"
 RULE = (
     "2-4 concurrent tasks on one shared Panoptica_Aggregator, each evaluate(subject), make_statistic() or a submission that raises (arrays of different shape, own name), subject names "
-    "drawn from a pool of 3 (one of five name sets: plain, numeric-looking such as 001 / 1e3 / 07 / 7.0, missing-value tokens such as NA / null / nan / None, names that are prefixes of each other) so that collisions are frequent, 0-1 subjects recorded sequentially beforehand; tasks run as "
+    "drawn from a pool of 3 (one of five name sets: plain, numeric-looking such as 001 / 1e3 / 07 / 7.0, missing-value tokens such as NA / null / nan / None, names that are prefixes of each other, names with quotes / comma / semicolon) so that collisions are frequent, 0-1 subjects recorded sequentially beforehand; tasks run as "
     "threads, as forked processes, or as forked processes that each work on their own pickled copy of an aggregator built by a process they were not forked from (long-lived pool workers; the copy is dropped and collected when the task is done). Every lock acquire/release, file open/close, remove and the middle of every row "
     "write is a scheduling point of a cooperative scheduler that runs exactly one task at a time; the interleaving is "
     "the generated schedule (free choice lists of <=200 integers, or priority orders with 0-4 preemptions placed at "
@@ -52,7 +52,7 @@ INPUTS = [
     ([2, 2, 0, 1, 1, 1, 1, 0], [2, 2, 2, 1, 1, 0, 0, 0]),
 ]
 NAME_SETS = [["alpha", " beta-2 ", "subject_name", "pre0"], ["001", "002", "1e3", "0"], ["7", "07", "7.0", "1_000"],
-             ["NA", "null", "nan", "None"], ["s10", "s1", "s", "s100"]]
+             ["NA", "null", "nan", "None"], ["s10", "s1", "s", "s100"], ['case "B" 02', "it's", "a,b;c", '"q"']]
 NAMES = list(NAME_SETS[0])  # the set in use; chosen per case by use_names()
 
 
@@ -99,7 +99,7 @@ def case_strategy(draw, mode=None):
     pre = draw(st.integers(0, 1))
     # continue_file=False is only meaningful on a fresh file (it skips rebuilding the claims from the output)
     return {"mode": mode or "threads", "tasks": tasks, "pre": pre, "schedule": draw(schedule()),
-            "continue_file": True if pre else draw(st.booleans()), "subject_names": draw(st.sampled_from([0, 0, 1, 2, 3, 4])),
+            "continue_file": True if pre else draw(st.booleans()), "subject_names": draw(st.sampled_from([0, 0, 1, 2, 3, 4, 5])),
             "grouped": draw(st.integers(0, 3)) == 0}
 
 
